@@ -23,7 +23,8 @@ Valid(h) == IF h.ver = "2" THEN h.wsver = "13" /\ h.method = "CONNECT"
 
 HS(o, a) == Req(o, a).c.hs
 
-PInit == [decision |-> Empty, sub |-> Empty, xh |-> Empty, denial |-> Empty, closer |-> Empty, ccode |-> Empty]
+PInit == [decision |-> Empty, sub |-> Empty, xh |-> Empty, denial |-> Empty, closer |-> Empty, ccode |-> Empty,
+          early |-> {}]
 
 InSeq(x, s) == \E i \in 1..Len(s) : s[i] = x
 HasHdr(hs, n, v) == \E i \in 1..Len(hs) : hs[i][3] = n /\ hs[i][2] = v
@@ -36,6 +37,10 @@ Clauses(o, ev, o2, p) ==
             \* Connection: upgrade) is plain HTTP: no WebSocket application may be started for it
             ELSE IF Req(o, ev.app).known /\ ~HS(o, ev.app).domain /\ Req(o, ev.app).kind = "http"
                  THEN <<F("invalid-accepted", "upgrade-outside-domain")>> ELSE <<>>
+      \* ... and a valid opening handshake is a WebSocket, however its header values are spelled
+      [] ev.e = "app_start" /\ ev.sc.type = "http" ->
+            IF Req(o, ev.app).known /\ Req(o, ev.app).kind = "ws" /\ HS(o, ev.app).domain /\ Valid(HS(o, ev.app)) /\ ~o.cerr
+            THEN <<F("valid-rejected", "served-as-http")>> ELSE <<>>
       [] ev.e = "app_recv" ->
             LET a == ev.app s == App(o, a) IN
             IF s.kind # "websocket" THEN <<>> ELSE
@@ -61,7 +66,10 @@ Clauses(o, ev, o2, p) ==
                    [] d = "close" -> IF ev.status = 403 THEN <<>> ELSE <<F("close-403", "")>>
                    [] d = "denial" ->
                         (IF ev.status = Get(p.denial, a, [status |-> 0]).status THEN <<>> ELSE <<F("denial-rendering", "status")>>)
-                   [] d = "" /\ App(o, a).done = "" /\ App(o, a).started > 0 /\ ev.status # 500 ->
+                   \* (a client that writes frames before the handshake is answered has left the protocol: the 400
+                   \*  that refuses it is the server's own, whatever the application was about to decide)
+                   [] d = "" /\ App(o, a).done = "" /\ App(o, a).started > 0 /\ ev.status # 500
+                      /\ ~(a \in p.early /\ ev.status = 400) ->
                         <<F("valid-rejected", "response-without-decision")>>
                    [] d = "" /\ App(o, a).started = 0 /\ ev.status = 400 /\ ~o.shut ->
                         <<F("valid-rejected", "400")>>
@@ -72,12 +80,16 @@ Clauses(o, ev, o2, p) ==
             \o (IF ev.subprotocol = Get(p.sub, a, "") /\ (ev.subprotocol = "" \/ InSeq(ev.subprotocol, h.subprotos))
                 THEN <<>> ELSE <<F("accept-rendering", "subprotocol")>>)
       [] ev.e = "quiescent" ->
-            LET Settled(a) == Req(o, a).known /\ Req(o, a).kind = "ws" /\ HS(o, a).domain /\ Req(o, a).done
+            LET Settled(a) == Req(o, a).known /\ Req(o, a).kind = "ws" /\ HS(o, a).domain
+                              \* (an extended CONNECT leaves its stream open: the request is its head)
+                              /\ (Req(o, a).done \/ (Req(o, a).ver = "2" /\ Req(o, a).head))
                               /\ Connected(o) /\ ~o.cerr /\ ~o.paused /\ ~o.shut
                 BadNo400(a) == Settled(a) /\ ~Valid(HS(o, a)) /\ Req(o, a).ver # "2" /\ Wire(o, a).heads = 0
                 DenialBody(a) == /\ Settled(a) /\ Get(p.decision, a, "") = "denial" /\ App(o, a).final /\ App(o, a).parked # "send"
                                  /\ App(o, a).sendExc = 0
-                                 /\ (Wire(o, a).ends = 0 \/ Wire(o, a).got # App(o, a).called \/ Wire(o, a).bad > 0)
+                                 /\ (Wire(o, a).ends = 0 \/ Wire(o, a).bad > 0
+                                     \/ Wire(o, a).got # (IF SuppressBody("GET", Get(p.denial, a, [status |-> 0]).status)
+                                                          THEN 0 ELSE App(o, a).called))
             IN (IF \E a \in DOMAIN o.reqs : BadNo400(a) THEN <<F("invalid-accepted", "no-400")>> ELSE <<>>)
             \o (IF \E a \in DOMAIN o.reqs : DenialBody(a) THEN <<F("denial-rendering", "body")>> ELSE <<>>)
       [] OTHER -> <<>>
@@ -95,6 +107,7 @@ PStep(p, o, ev, o2) ==
               [] mm.type = "websocket.http.response.start" /\ d = "" ->
                     [p EXCEPT !.decision = Put(@, a, "denial"), !.denial = Put(@, a, [status |-> mm.status])]
               [] OTHER -> p
+      [] ev.e = "c_ws" /\ Has(ev, "early") /\ ev.early -> [p EXCEPT !.early = @ \cup {ev.app}]
       [] ev.e = "c_ws" /\ ev.kind = "close" ->
             IF Get(p.closer, ev.app, "") = ""
             THEN [p EXCEPT !.closer = Put(@, ev.app, "client"),
